@@ -15,7 +15,8 @@ PROPERTY = "C07"
 RULES = {
     "R1": "model-unchanged protocol of save()/save_safetensors(): the tensors are snapshot before the first write to "
     "the model, every write to model objects happens inside the try, and the finally restores every Value/Node/Graph "
-    "field the try body can write",
+    "field the try body can write"
+    " ; the snapshot keeps one entry per initializer Value (a sequence, or a mapping keyed by the Value itself - never by a per-graph name)",
     "R2": "subgraph coverage: every save/unload/load routine collects initializers from model.graphs(), never from "
     "model.graph.initializers alone; tensor walks treat GRAPH and GRAPHS alike (S1)",
     "R3": "safetensors tables: for every IR dtype in the write table the header code of its dtype string maps back "
